@@ -175,14 +175,26 @@ def run(ctx):
     def ask(line, cb):
         reqs.append((line, cb))
 
+    hangs = {"n": 0}
+
     def load_mol2(text):
+        if hangs["n"] >= 3:       # the verdict is already fixed; do not spend 5 s on every further text
+            ctx.count("skipped_after_3_hangs")
+            return "err"
         st, r = tl.limited(lambda: ml.Molecule.loads_all_mol2(text), TIME_LIMIT)
+        if st == "hang":
+            hangs["n"] += 1
         if st == "ok":
             return [tl.canon_mol(en, x) for x in r]
         return "hang" if st == "hang" else "err"
 
     def load_xyz(text):
+        if hangs["n"] >= 3:
+            ctx.count("skipped_after_3_hangs")
+            return "err"
         st, r = tl.limited(lambda: ml.Molecule.loads_all_xyz(text), TIME_LIMIT)
+        if st == "hang":
+            hangs["n"] += 1
         if st == "ok":
             return [tl.canon_geom(en, x) for x in r]
         return "hang" if st == "hang" else "err"
